@@ -231,6 +231,10 @@ def run_scenario(seed, shard, idx, tier):
              "sample": None}
     stats["behaviours"].add(behaviour(recipe, base, None))
     meta = recipe["meta"]
+    stats["label"] = "%s:%s:%s" % (
+        recipe["tool"], meta["label"] if meta["label"] != "success"
+        else (meta.get("op") or meta.get("mode") or "success"),
+        "exit0" if base.exit == 0 else "nonzero")
     if meta["label"] != "success" and base.exit == 0 \
             and recipe["tool"] != "eyaml-rotate-keys":
         stats["mislabelled"] += 1
@@ -244,6 +248,18 @@ def run_scenario(seed, shard, idx, tier):
         for _ in range(count):
             plans.append({"kind": "interrupt",
                           "step": rng.randrange(base.lines), "arg": None})
+        # SIGINT placed inside the save: right around the traced line at
+        # which each mutating I/O step was issued (in-flight state), not
+        # only uniformly over a run that is mostly parsing
+        near = [ln for (_k, kind, ln) in base.step_lines
+                if kind in ("open-w", "write", "remove", "copystat",
+                            "tmp-write", "close")]
+        picks = near if tier != "quick" else \
+            rng.sample(near, min(4, len(near)))
+        for line in picks:
+            plans.append({"kind": "interrupt",
+                          "step": max(0, line + rng.choice([-1, 0, 0, 1, 2])),
+                          "arg": None})
     import hashlib
     rolling = hashlib.sha256(stats["digest"].encode())
     for plan in plans:
@@ -296,6 +312,7 @@ def shard_main(payload):
         if "mislabel_example" in st and len(agg["mislabel_examples"]) < 3:
             agg["mislabel_examples"].append(st["mislabel_example"])
         agg["digests"].append((idx, st["digest"]))
+        agg["labels"][st["label"]] = agg["labels"].get(st["label"], 0) + 1
         if st["sample"]:
             agg["samples"].append(st["sample"])
     return agg
@@ -689,7 +706,7 @@ def main():
     agg = {"runs": 0, "steps": 0, "scenarios": 0, "mislabelled": 0,
            "planned": {}, "fired": {}, "probes": set(), "behaviours": set(),
            "violations": [], "samples": [], "digests": [],
-           "mislabel_examples": []}
+           "mislabel_examples": [], "labels": {}}
     for res in results:
         for key in ("runs", "steps", "scenarios", "mislabelled"):
             agg[key] += res[key]
@@ -701,6 +718,8 @@ def main():
         agg["violations"].extend(res["violations"])
         agg["samples"].extend(res["samples"])
         agg["digests"].extend(res["digests"])
+        for name, num in res["labels"].items():
+            agg["labels"][name] = agg["labels"].get(name, 0) + num
         agg["mislabel_examples"].extend(res["mislabel_examples"])
     sess = {"sessions": 0, "session_steps": 0, "operator_restores": 0}
     for res in session_results:
@@ -776,6 +795,8 @@ def main():
                     "role, exit class) tuples among runs whose fault FIRED",
             "samples": agg["samples"][:6],
             "scenarios": agg["scenarios"],
+            "scenario_kinds_exercised_fault_free": dict(
+                sorted(agg["labels"].items())),
             "session_mode": sess,
             "simulated_io_steps": agg["steps"],
             "runs_per_hour": round(agg["runs"] / max(wall, 1e-6) * 3600),
